@@ -52,6 +52,9 @@ type c19Case struct {
 	Values []interface{} `json:"values"`
 	Gen    string        `json:"gen,omitempty"` // large generated inputs: "n:<count>"
 	Aggs   []aggSpec     `json:"aggs"`
+	// NullRows: the rows reaching aggregate() are null travelers (V().hasLabel(L).as(a).outNull()
+	// on vertices without edges); the aggregations read the same fields through the mark ($a.f)
+	NullRows bool `json:"null_rows,omitempty"`
 }
 
 const missing = "__missing__"
@@ -103,6 +106,7 @@ func c19Gen(g *fw.GenCtx) []fw.Case {
 	for _, n := range names {
 		for _, s := range specs {
 			cases = append(cases, fw.MkCase("agg", c19Case{Values: sets[n], Aggs: []aggSpec{s}}))
+			cases = append(cases, fw.MkCase("agg", c19Case{Values: sets[n], Aggs: []aggSpec{s}, NullRows: true}))
 		}
 	}
 	// every subset of aggregation KINDS of size 2 and 3 in one step (one representative per kind, rotating)
@@ -166,7 +170,7 @@ func c19Gen(g *fw.GenCtx) []fw.Case {
 				as = append(as, s)
 			}
 		}
-		cases = append(cases, fw.MkCase("agg", c19Case{Values: vals, Aggs: as}))
+		cases = append(cases, fw.MkCase("agg", c19Case{Values: vals, Aggs: as, NullRows: i%4 == 3}))
 	}
 	return cases
 }
@@ -378,12 +382,18 @@ type c19Env struct {
 	n  int
 }
 
-func runAgg(ctx context.Context, gi gdbi.GraphInterface, w *fw.Worker, aggs []aggSpec) (map[string][]aggRow, string) {
+func runAgg(ctx context.Context, gi gdbi.GraphInterface, w *fw.Worker, aggs []aggSpec, nullRows bool) (map[string][]aggRow, string) {
 	var pbs []*gripql.Aggregate
 	for _, a := range aggs {
+		if nullRows && a.Field != "" {
+			a.Field = "$a." + a.Field
+		}
 		pbs = append(pbs, a.pb())
 	}
 	q := gripql.V().HasLabel("L").Aggregate(pbs)
+	if nullRows {
+		q = gripql.V().HasLabel("L").As("a").OutNull().Aggregate(pbs)
+	}
 	rows := gq.Run(ctx, gi.Compiler(), q.Statements, w.NewDir("work"))
 	if rows.CompileErr != "" {
 		return nil, rows.CompileErr
@@ -470,7 +480,7 @@ func c19Exec(w *fw.Worker, c fw.Case) fw.Result {
 	} else {
 		detail["values"] = cc.Gen
 	}
-	combined, cerr := runAgg(ctx, gi, w, cc.Aggs)
+	combined, cerr := runAgg(ctx, gi, w, cc.Aggs, cc.NullRows)
 	if cerr != "" {
 		return fw.ViolatedR("aggregate:error", "aggregate step failed: "+cerr, detail)
 	}
@@ -482,7 +492,7 @@ func c19Exec(w *fw.Worker, c fw.Case) fw.Result {
 		}
 		res.Count("aggregations_checked", 1)
 		if len(cc.Aggs) > 1 {
-			alone, aerr := runAgg(ctx, gi, w, []aggSpec{a})
+			alone, aerr := runAgg(ctx, gi, w, []aggSpec{a}, cc.NullRows)
 			if aerr != "" {
 				return fw.ViolatedR("aggregate:error", "aggregate step failed: "+aerr, detail)
 			}
@@ -535,7 +545,7 @@ func min(a, b int) int {
 func init() {
 	fw.Register(&fw.Property{
 		ID:   "C19",
-		Rule: "V().hasLabel(L).aggregate(A) on graphs whose field f holds a generated multiset (empty, single, all-equal, ties, negatives, mixed JSON kinds incl. missing/null/bool/list/map, no numeric value at all, 999/1000/1001 rows), a bystander vertex with another label; A = every single aggregation of 22 specs (count; term with size 0,1,2,3,100; histogram with interval 1,2,5,10; percentile with percent lists [],[50],[0,25,50,75,100],[99,1]; field on _data and f; type) on every multiset, every pair and (quick: a third of) every triple of aggregation kinds, 1500 / 20000 random multisets with 1-3 aggregations. The rows of the same engine run without aggregate() are the input of the oracle: count = number of rows; term buckets = exact frequencies of distinct scalar values, at most size of them and a valid top-size choice; histogram buckets are multiples of the interval, each counts exactly the numeric values inside it, the sum is the number of numeric values; field/type counts exact; percentiles non-decreasing in p and within [min,max]; each aggregation's answer equals its answer when requested alone. Non-trivial = non-empty input.",
+		Rule: "V().hasLabel(L).aggregate(A) - and V().hasLabel(L).as(a).outNull().aggregate(A over $a.f), whose rows are null travelers - on graphs whose field f holds a generated multiset (empty, single, all-equal, ties, negatives, mixed JSON kinds incl. missing/null/bool/list/map, no numeric value at all, 999/1000/1001 rows), a bystander vertex with another label; A = every single aggregation of 22 specs (count; term with size 0,1,2,3,100; histogram with interval 1,2,5,10; percentile with percent lists [],[50],[0,25,50,75,100],[99,1]; field on _data and f; type) on every multiset, every pair and (quick: a third of) every triple of aggregation kinds, 1500 / 20000 random multisets with 1-3 aggregations. The rows of the same engine run without aggregate() are the input of the oracle: count = number of rows; term buckets = exact frequencies of distinct scalar values, at most size of them and a valid top-size choice; histogram buckets are multiples of the interval, each counts exactly the numeric values inside it, the sum is the number of numeric values; field/type counts exact; percentiles non-decreasing in p and within [min,max]; each aggregation's answer equals its answer when requested alone. Non-trivial = non-empty input.",
 		Assumptions: []string{
 			"numeric values are JSON numbers; numeric text and booleans are not numeric (booleans are generated, numeric text is not)",
 			"percentiles are checked for order and range only (t-digest is approximate); with no numeric value the quantile is unspecified",
